@@ -36,6 +36,7 @@ const MSTOREW: u8 = Operation::MStoreW.op_code();
 const MLOAD: u8 = Operation::MLoad.op_code();
 const MSTORE: u8 = Operation::MStore.op_code();
 const MSTREAM: u8 = Operation::MStream.op_code();
+const PIPE: u8 = Operation::Pipe.op_code();
 const RCOMBBASE: u8 = Operation::RCombBase.op_code();
 const HPERM: u8 = Operation::HPerm.op_code();
 const MPVERIFY: u8 = Operation::MpVerify.op_code();
@@ -99,7 +100,8 @@ impl<E: FieldElement<BaseField = Felt>> AuxColumnBuilder<E> for BusColumnBuilder
             MSTOREW => build_mem_request_word(main_trace, MEMORY_WRITE_LABEL, alphas, row),
             MLOAD => build_mem_request_element(main_trace, MEMORY_READ_LABEL, alphas, row),
             MSTORE => build_mem_request_element(main_trace, MEMORY_WRITE_LABEL, alphas, row),
-            MSTREAM => build_mstream_request(main_trace, alphas, row),
+            MSTREAM => build_mstream_request(main_trace, MEMORY_READ_LABEL, alphas, row),
+            PIPE => build_mstream_request(main_trace, MEMORY_WRITE_LABEL, alphas, row),
             RCOMBBASE => build_rcomb_base_request(main_trace, alphas, row),
             HPERM => build_hperm_request(main_trace, alphas, row),
             MPVERIFY => build_mpverify_request(main_trace, alphas, row),
@@ -442,9 +444,10 @@ fn build_mem_request_word<E: FieldElement<BaseField = Felt>>(
     compute_memory_request(main_trace, op_label, alphas, row, addr, word)
 }
 
-/// Builds `MSTREAM` requests made to the memory chiplet.
+/// Builds the two word requests made to the memory chiplet by `MSTREAM` (reads) and `PIPE` (writes).
 fn build_mstream_request<E: FieldElement<BaseField = Felt>>(
     main_trace: &MainTrace,
+    op_label: u8,
     alphas: &[E],
     row: usize,
 ) -> E {
@@ -461,7 +464,6 @@ fn build_mstream_request<E: FieldElement<BaseField = Felt>>(
         main_trace.stack_element(0, row + 1),
     ];
     let addr = main_trace.stack_element(12, row);
-    let op_label = MEMORY_READ_LABEL;
 
     let factor1 = compute_memory_request(main_trace, op_label, alphas, row, addr, word1);
     let factor2 = compute_memory_request(main_trace, op_label, alphas, row, addr + ONE, word2);
